@@ -16,7 +16,7 @@ mutual
 def traceVal (sk : Skip) : Val → List W
   | .torch .tensor _ _ | .torch .parameter _ _ => [.group, .attr, .attr, .attr, .attr, .attr, .bytes]
   | .torch .optimizer _ _ | .torch .scheduler _ _ => [.group, .attr, .attr, .bytes]
-  | .torch .module _ _ => [.group, .attr, .bytes]
+  | .torch .module _ _ | .torch .other _ _ => [.group, .attr, .bytes]
   | .pyLogger _ _ => [.group, .attr, .attr, .attr, .attr]
   | .ndarray _ shape _ =>
       if !shape.isEmpty && shape.any (· == 0) then [.array, .attr]   -- `_original_shape`
